@@ -19,6 +19,47 @@ import threading
 FLAT_LEAVES = ("of", "iter", "range", "gen")
 
 
+def _leaf(tree, env, cb):
+    import reactivex as rx
+
+    ids = env["ids"]
+    kind = tree[0]
+    i = ids[0]
+    ids[0] += 1
+    n = tree[1] if len(tree) > 1 else 0
+    base = 100 * i
+    if kind == "of":
+        return rx.of(*[base + j for j in range(n)])
+    if kind == "iter":
+        def gen():
+            for j in range(n):
+                cb(f"pull{i}")
+                yield base + j
+            cb(f"pull{i}")
+        # a generator can be iterated once: one per subscription
+        return rx.defer(lambda _: rx.from_iterable(gen()))
+    if kind == "range":
+        return rx.range(base, base + n)
+    if kind == "gen":
+        def cond(s):
+            cb(f"cond{i}")
+            return s < base + n
+
+        def it(s):
+            cb(f"iter{i}")
+            return s + 1
+        return rx.generate(base, cond, it)
+    if kind == "ret":
+        return rx.return_value(base)
+    if kind == "empty":
+        return rx.empty()
+    if kind == "throw":
+        return rx.throw(ValueError(f"leaf{i}"))
+    if kind == "rep":
+        return rx.repeat_value(base, n)
+    raise ValueError(kind)
+
+
 def _build(tree, env):
     import reactivex as rx
     from reactivex import operators as ops
@@ -31,40 +72,17 @@ def _build(tree, env):
     kind = tree[0]
     if kind in ("of", "iter", "range", "gen", "ret", "empty", "throw", "rep"):
         i = ids[0]
-        ids[0] += 1
-        n = tree[1] if len(tree) > 1 else 0
-        base = 100 * i
-        if kind == "of":
-            return rx.of(*[base + j for j in range(n)])
-        if kind == "iter":
-            def gen():
-                for j in range(n):
-                    cb(f"pull{i}")
-                    yield base + j
-                cb(f"pull{i}")
-            # a generator can be iterated once: one per subscription
-            return rx.defer(lambda _: rx.from_iterable(gen()))
-        if kind == "range":
-            return rx.range(base, base + n)
-        if kind == "gen":
-            def cond(s):
-                cb(f"cond{i}")
-                return s < base + n
+        leaf = _leaf(tree, env, cb)
 
-            def it(s):
-                cb(f"iter{i}")
-                return s + 1
-            return rx.generate(base, cond, it)
-        if kind == "ret":
-            return rx.return_value(base)
-        if kind == "empty":
-            return rx.empty()
-        if kind == "throw":
-            return rx.throw(ValueError(f"leaf{i}"))
-        if kind == "rep":
-            return rx.repeat_value(base, n)
+        def opened(_):
+            log.append(["sub", i])
+            return leaf
+        # every leaf subscription is logged when opened and when released (finally_action runs when its subscription is disposed)
+        return rx.defer(opened).pipe(ops.finally_action(lambda: log.append(["rel", i])))
     if kind in ("merge", "concat", "zip", "clatest", "catch", "oern", "fjoin", "amb", "wlf"):
+        first = ids[0]
         kids = [_build(t, env) for t in tree[1:]]
+        env.setdefault("spans", []).append((kind, first, ids[0] - 1))   # ids of everything below this combinator
         if kind == "merge":
             return rx.merge(*kids)
         if kind == "concat":
@@ -199,12 +217,31 @@ def oracle(case, out):
         return "pipeline did not finish within 20 s"
     m = out["mark"]
     if m is None:
-        return None
+        return released(out)
     # finally actions are release callbacks: when the terminating notification was delivered inside an inner subscribe() call they
     # run as soon as that subscription is handed over (same call stack, right after dispose() returned) - that is C40's business
-    late = [e for e in out["log"][m:] if e[0] != "fin"]
+    late = [e for e in out["log"][m:] if e[0] not in ("fin", "rel")]
     if late:
         return f"after dispose() returned (during notification {case['k']}): {late[:4]} ran/was delivered"
+    return released(out)
+
+
+def released(out):
+    """sources freed: once the run is over (terminal delivered or subscription disposed, trampoline drained) every leaf subscription
+    that was opened has been released exactly once."""
+    log = out["log"]
+    ended = out["mark"] is not None or any(e[0] in ("E", "C") for e in log)
+    if not ended or out.get("hung") or out.get("escaped"):
+        return None
+    opened, rel = {}, {}
+    for e in log:
+        if e[0] == "sub":
+            opened[e[1]] = opened.get(e[1], 0) + 1
+        elif e[0] == "rel":
+            rel[e[1]] = rel.get(e[1], 0) + 1
+    for i in sorted(set(opened) | set(rel)):
+        if opened.get(i, 0) != rel.get(i, 0):
+            return f"leaf {i}: {opened.get(i, 0)} subscription(s) opened, {rel.get(i, 0)} released by the end of the run"
     return None
 
 
@@ -229,19 +266,37 @@ def classify(case, why):
     out = run(case)
     if out["mark"] is None:
         return None
-    spans = [(a, b) for kind, a, b in out["spans"] if kind == "expand"]
-    for ev in out["log"][out["mark"]:]:
-        if ev[0] == "fin":
-            continue
-        i = _ident(ev)
-        if i is None or not any(a <= i <= b for a, b in spans):
+    late = [ev for ev in out["log"][out["mark"]:] if ev[0] not in ("fin", "rel")]
+    if not late:
+        return None
+    # Known finding C03-subscribe-loop-after-sync-terminal: combine_latest / zip / fork_join / with_latest_from / amb subscribe their sources in
+    # a loop; when an earlier source terminates the result synchronously inside its subscribe() (throw/empty on the immediate scheduler)
+    # and the subscriber disposes inside that notification, the loop still subscribes the remaining sources (and releases them at once):
+    # only leaf-subscription markers below such a combinator qualify.
+    loops = [(a, b) for kind, a, b in out["spans"] if kind in ("clatest", "zip", "fjoin", "wlf", "amb")]
+    expands = [(a, b) for kind, a, b in out["spans"] if kind == "expand"]
+    node_span = {a: (a, b) for kind, a, b in out["spans"] if kind not in N_ARY or kind == "oern"}
+    hit = set()
+    for ev in late:
+        i = ev[1] if ev[0] == "sub" else _ident(ev)
+        if i is None:
             return None
-    return "C03-expand-immediate-sources" if spans else None
+        # expand finding: the event belongs to an expand node, to its sources, or to a stage between an expand and the subscriber
+        # (those stages sit inside expand's synchronous subscribe and are not connected to the subscription chain yet either)
+        sp = node_span.get(i, (i, i))
+        if any(a <= i <= b or (sp[0] <= a <= sp[1]) for a, b in expands):
+            hit.add("C03-expand-immediate-sources")
+        # loop finding: a subscribe-time event (leaf subscription marker, defer factory) below a looping combinator
+        elif (ev[0] == "sub" or (ev[0] == "cb" and ev[1].startswith("defer"))) and any(a <= i <= b for a, b in loops):
+            hit.add("C03-subscribe-loop-after-sync-terminal")
+        else:
+            return None
+    return sorted(hit)[0] if hit else None
 
 
 def nontrivial(case, out):
     m = out["mark"]
-    return m is not None and out["base_len"] > m
+    return m is not None and len(events(out["base"])) > len(events(out["log"][:m]))
 
 
 def flat(tree):
@@ -268,6 +323,11 @@ def gen_tree(rng, depth):
 
 def gen_flat(rng):
     return ["merge"] + [[rng.choice(FLAT_LEAVES), rng.randrange(0, 4)] for _ in range(rng.randrange(0, 5))]
+
+
+def events(log):
+    """the log without the harness's own open/release markers"""
+    return [e for e in log if e[0] not in ("sub", "rel")]
 
 
 def count_notifications(tree):
